@@ -76,6 +76,9 @@ func freePort(t *testing.T) string {
 var probeRoutes = []string{"/internal", "/internal/probe", "/internal/probe/sub", "/internal/p/:id", "/internal/w/*",
 	"/status", "/status/diagnostics", "/metrics", "/health", "/public/probe", "/iam/:id/did.json", "/"}
 
+// every probe route has a handler for EVERY method (a request that is let through must find a handler to show it)
+var probeMethods = []string{"GET", "POST", "HEAD", "OPTIONS", "PUT", "DELETE", "CONNECT", "PATCH", "TRACE", "PROPFIND", "REPORT", "VERIFX"}
+
 type engineInst struct {
 	tag          string
 	eng          *nutshttp.Engine
@@ -111,7 +114,7 @@ func startEngine(t *testing.T, tag string, auth bool, same bool, keysPath string
 			hitsMu.Unlock()
 			return c.String(200, "ran "+route)
 		}
-		for _, m := range []string{"GET", "POST", "HEAD", "OPTIONS", "PUT", "DELETE", "CONNECT"} {
+		for _, m := range probeMethods {
 			e.Router().Add(m, route, h)
 		}
 	}
@@ -171,7 +174,62 @@ func sendOnce(addr string, raw string, patience time.Duration) int {
 	var proto string
 	var code int
 	fmt.Sscanf(line, "%s %d", &proto, &code)
+	for n := 0; code >= 100 && code < 200 && code != 101 && n < 3; n++ {
+		// interim response (100 Continue): the final status line follows the empty line
+		for {
+			l, err := br.ReadString('\n')
+			if err != nil {
+				return code
+			}
+			if strings.TrimSpace(l) == "" {
+				break
+			}
+		}
+		l, err := br.ReadString('\n')
+		if err != nil {
+			return code
+		}
+		fmt.Sscanf(l, "%s %d", &proto, &code)
+	}
 	return code
+}
+
+// requestHeaders is the header alphabet of the raw-request grammar: headers (and header/method combinations) that
+// proxies, browsers and frameworks give a meaning that could let a request around the token check: CORS preflight,
+// forwarding / client-address headers, URL and method override headers, protocol upgrades, other credentials,
+// body-framing oddities.
+var requestHeaders = []string{
+	"Origin: https://admin.example", "Origin: null", "Access-Control-Request-Method: POST", "Access-Control-Request-Headers: authorization",
+	"X-Forwarded-For: 127.0.0.1", "X-Forwarded-Host: localhost", "X-Forwarded-Proto: https", "X-Forwarded-Prefix: /public",
+	"Forwarded: for=127.0.0.1;host=localhost;proto=https", "X-Real-IP: 127.0.0.1", "X-Original-URL: /public/probe", "X-Rewrite-URL: /public/probe",
+	"X-Forwarded-Uri: /public/probe", "X-HTTP-Method-Override: OPTIONS", "X-HTTP-Method-Override: GET", "Upgrade: websocket", "Upgrade: h2c",
+	"Connection: Upgrade, HTTP2-Settings", "HTTP2-Settings: AAMAAABkAAQCAAAAAAIAAAAA", "Sec-WebSocket-Key: dGhlIHNhbXBsZSBub25jZQ==", "Via: 1.1 internal-proxy",
+	"Proxy-Authorization: Bearer x", "Cookie: token=x; session=admin", "Referer: http://localhost/internal/", "Expect: 100-continue",
+	"Transfer-Encoding: chunked", "Transfer-Encoding: identity", "Content-Length: 5", "Content-Type: application/json", "X-Requested-With: XMLHttpRequest",
+	"Authorization: Basic YWRtaW46YWRtaW4=", "X-Api-Key: x", "X-Internal: true",
+}
+
+// headerSets: all singles and pairs (thorough: triples) of the header alphabet, by index.
+func headerSets(n int, triples bool) [][]int {
+	var out [][]int
+	for i := 0; i < n; i++ {
+		out = append(out, []int{i})
+	}
+	for i := 0; i < n; i++ {
+		for j := i + 1; j < n; j++ {
+			out = append(out, []int{i, j})
+		}
+	}
+	if triples {
+		for i := 0; i < n; i++ {
+			for j := i + 1; j < n; j++ {
+				for k := j + 1; k < n; k++ {
+					out = append(out, []int{i, j, k})
+				}
+			}
+		}
+	}
+	return out
 }
 
 // ------------------------------------------------------------------ request-target grammar
@@ -324,11 +382,17 @@ func buildTargets(base []string, depth int, hostPort string) []target {
 	return out
 }
 
-func (t target) raw(authz []string) string {
+func (t target) raw(authz []string) string { return t.rawH(authz, nil) }
+
+// rawH also writes extra header lines ("Name: value") before the Authorization headers.
+func (t target) rawH(authz []string, extra []string) string {
 	var sb strings.Builder
 	sb.WriteString(t.Method + " " + t.Target + " " + t.Version + "\r\n")
 	if t.Host != "" {
 		sb.WriteString("Host: " + t.Host + "\r\n")
+	}
+	for _, h := range extra {
+		sb.WriteString(h + "\r\n")
 	}
 	for _, a := range authz {
 		sb.WriteString("Authorization: " + a + "\r\n")
@@ -1137,6 +1201,95 @@ func TestVerifC04(t *testing.T) {
 		}
 		if idx%997 == 1 {
 			r.Sample(map[string]string{"request_line": tg.Method + " " + tg.Target + " " + tg.Version, "host": tg.Host, "desc": tg.Desc})
+		}
+	}
+
+	// ---- part 1b: request HEADERS (and the methods that only matter with them) as a dimension of the request grammar:
+	// every protected base route x every method (incl. OPTIONS / HEAD / TRACE / CONNECT / PATCH / WebDAV / an unknown one)
+	// x all singles and pairs (thorough: triples) of the header alphabet, without token (singles also with a token of an
+	// unauthorised key). Oracle unchanged: handler ran => the request's token is acceptable (it never is here); a request
+	// that the twin routes to an /internal handler and that is refused is answered 401.
+	{
+		hsets := headerSets(len(requestHeaders), r.Thorough())
+		r.Bound("header_alphabet", len(requestHeaders))
+		r.Bound("header_sets", len(hsets))
+		hroutes := []string{"/internal/probe", "/internal", "/internal/p/7", "/internal/w/a/b"}
+		var violating [][]int // header sets already reported: supersets say nothing new
+		contains := func(set, sub []int) bool {
+			for _, x := range sub {
+				found := false
+				for _, y := range set {
+					found = found || x == y
+				}
+				if !found {
+					return false
+				}
+			}
+			return true
+		}
+		for _, hs := range hsets {
+			idx++
+			if !r.Mine(idx) {
+				continue
+			}
+			if r.Expired() {
+				break
+			}
+			skip := false
+			for _, v := range violating {
+				skip = skip || contains(hs, v)
+			}
+			if skip {
+				continue
+			}
+			var extra, names []string
+			for _, i := range hs {
+				extra = append(extra, requestHeaders[i])
+				names = append(names, strings.ToLower(strings.SplitN(requestHeaders[i], ":", 2)[0]))
+			}
+			sort.Strings(names)
+			authzs := [][]string{nil}
+			if len(hs) == 1 {
+				authzs = append(authzs, []string{"Bearer " + badTok})
+			}
+			for _, route := range hroutes {
+				for _, m := range probeMethods {
+					for _, authz := range authzs {
+						tg := target{Method: m, Target: route, Version: "HTTP/1.1", Host: "x"}
+						raw := tg.rawH(authz, extra)
+						takeHits()
+						code := send(auth.internalAddr, raw)
+						ah := takeHits()
+						r.Eval("hdr|" + m + " " + route + "|" + strings.Join(extra, "|") + fmt.Sprint(authz != nil))
+						r.Outcome(fmt.Sprintf("headers status=%d ran=%d", code, len(ah)))
+						bad := false
+						for _, h := range ah {
+							if isInternalRoute(h.Route) {
+								bad = true
+								r.Violation("C04|bypass|header|"+m+"|"+strings.Join(names, "+"),
+									fmt.Sprintf("handler %s ran without an acceptable token for %s %s with header(s) %q", h.Route, m, route, extra),
+									map[string]any{"raw": raw, "desc": "headers " + strings.Join(extra, " | ")})
+							}
+						}
+						if bad {
+							violating = append(violating, hs)
+						}
+						if code == -1 {
+							r.NotExhaustive("a request got no answer in three attempts (machine load)")
+						}
+						if len(ah) == 0 && code != 401 && code != -1 {
+							// refused some other way: 401 is owed only if the request routes to an /internal handler at all
+							send(twin.internalAddr, raw)
+							th := takeHits()
+							if len(th) > 0 && isInternalRoute(th[0].Route) {
+								r.Violation("C04|not-401|header|"+m+"|"+strings.Join(names, "+"),
+									fmt.Sprintf("%s %s with header(s) %q routes to an /internal handler but is answered %d instead of 401 without a token", m, route, extra, code),
+									map[string]any{"raw": raw, "desc": "headers " + strings.Join(extra, " | ")})
+							}
+						}
+					}
+				}
+			}
 		}
 	}
 
